@@ -5,6 +5,7 @@
 package tr
 
 import (
+	"os"
 	"errors"
 	"fmt"
 	"io"
@@ -70,6 +71,7 @@ type Conn struct {
 	failed      bool
 
 	CloseErr error // returned by the server-side Close (the connection is closed all the same)
+	rdl, wdl time.Time
 	Yield    func() // called (outside the lock) at every Read/Write for schedule diversity
 	addr  *Addr
 }
@@ -134,6 +136,10 @@ func (c *Conn) Read(p []byte) (int, error) {
 		if c.closed {
 			return 0, net.ErrClosed
 		}
+		if expired(c.rdl) {
+			c.blocked = false
+			return 0, os.ErrDeadlineExceeded
+		}
 		if !c.blocked {
 			c.blocked = true
 			c.log(Event{Kind: "B", N: c.consumed})
@@ -172,6 +178,9 @@ func (c *Conn) Write(p []byte) (int, error) {
 	if c.closed {
 		return 0, net.ErrClosed
 	}
+	if expired(c.wdl) {
+		return 0, os.ErrDeadlineExceeded
+	}
 	if c.failed || (c.FailWriteAt > 0 && c.writes >= c.FailWriteAt) {
 		n := 0
 		if !c.failed && c.ShortWrite && len(p) > 1 {
@@ -205,9 +214,33 @@ func (c *Conn) Close() error {
 
 func (c *Conn) LocalAddr() net.Addr                { return &Addr{C: c} }
 func (c *Conn) RemoteAddr() net.Addr               { return c.addr }
-func (c *Conn) SetDeadline(t time.Time) error      { return nil }
-func (c *Conn) SetReadDeadline(t time.Time) error  { return nil }
-func (c *Conn) SetWriteDeadline(t time.Time) error { return nil }
+
+// Deadlines behave like those of a TCP connection (the pinned tree sets none; a tree that uses
+// them - idle timeouts, interrupting blocked reads on shutdown - must not look wedged here).
+func (c *Conn) SetDeadline(t time.Time) error {
+	c.SetReadDeadline(t)
+	return c.SetWriteDeadline(t)
+}
+
+func (c *Conn) SetReadDeadline(t time.Time) error {
+	c.mu.Lock()
+	c.rdl = t
+	c.cond.Broadcast()
+	c.mu.Unlock()
+	if d := time.Until(t); !t.IsZero() && d > 0 {
+		time.AfterFunc(d+time.Millisecond, func() { c.mu.Lock(); c.cond.Broadcast(); c.mu.Unlock() })
+	}
+	return nil
+}
+
+func (c *Conn) SetWriteDeadline(t time.Time) error {
+	c.mu.Lock()
+	c.wdl = t
+	c.mu.Unlock()
+	return nil
+}
+
+func expired(t time.Time) bool { return !t.IsZero() && !time.Now().Before(t) }
 
 // ---- client side -----------------------------------------------------------
 
@@ -277,7 +310,7 @@ func (c *Conn) Quiesce() (closed bool, ok bool) {
 	return c.waitFor(func() bool {
 		// once the client has half-closed (or aborted) the server cannot block for
 		// input any more: the only quiescent state left is "closed"
-		return c.closed || c.failed || (c.blocked && len(c.in) == 0 && !c.inEOF && c.inErr == nil)
+		return c.closed || c.failed || (c.blocked && len(c.in) == 0 && !c.inEOF && c.inErr == nil && (c.rdl.IsZero() || time.Until(c.rdl) > 2*time.Second))
 	})
 }
 
